@@ -122,7 +122,8 @@ func (server *Server) Start() error {
 
 	err = server.open()
 	if err != nil {
-		return err
+		// Releases the listeners which were opened before the failure.
+		return errors.Join(err, server.close())
 	}
 
 	if server.IsPortEnabled() {
@@ -204,14 +205,13 @@ func (server *Server) open() error {
 	server.lifecycleMutex.Lock()
 	defer server.lifecycleMutex.Unlock()
 
-	var err error
-
 	if server.IsPortEnabled() {
 		addr := net.JoinHostPort(server.Addr, strconv.Itoa(server.ConfigPort()))
-		server.portListener, err = net.Listen("tcp", addr)
+		l, err := net.Listen("tcp", addr)
 		if err != nil {
 			return err
 		}
+		server.portListener = l
 		log.Infof("%s/%s (%s) started", PackageName, Version, addr)
 	}
 
@@ -227,10 +227,11 @@ func (server *Server) open() error {
 			server.tlsConfig = tlsConfig
 		}
 		addr := net.JoinHostPort(server.Addr, strconv.Itoa(server.ConfigTLSPort()))
-		server.tlsPortListener, err = net.Listen("tcp", addr)
+		l, err := net.Listen("tcp", addr)
 		if err != nil {
 			return err
 		}
+		server.tlsPortListener = l
 		log.Infof("%s/%s (%s) started", PackageName, Version, addr)
 	}
 
